@@ -40,26 +40,20 @@ def rule_parser_siblings(rep, rule="H-siblings"):
 
 
 def run(rep, tier):
-    rep.rule("C-unesc", "every payload the two text readers return is un-doubled exactly once, after its delimiting quotes were removed")
-    rep.rule("C-regex-label", "the long reader's payload regexes are greedy and span lines")
     rep.rule("C-num-regex / C-num-conv", "numeric regexes and the span converter accept the writer's (and the specification's) plain and exponent notation")
-    rep.rule("C-blocks", "the short reader pairs adjacent tier offsets only on an ascending list (one scan, or sorted after the merge)")
     rep.rule("C-scan", "delimiter scans over raw text cannot match inside an escaped payload")
     rep.rule("C-flow", "CRLF normalisation precedes scanning; JSON tried first; blank removal iff includeEmptyIntervals is False and exactly the empty labels; UTF-16 then UTF-8")
-    rep.rule("H-siblings", "the long and short parsers produce the same keys, value kinds, constructors, strip discipline and conversions")
     rep.rule("C-dupnames", "the duplicate-name loop of openTextgrid, interpreted on name lists: 'error' raises DuplicateTierName, 'rename' yields unique names in file order")
-    rep.rule("C-order", "the short reader consumes rows in the order of Praat's short format")
     rep.rule("C-keys", "both JSON schemas decode through the same dictionary protocol")
     rep.not_decided.append("acceptance of every specification-conformant layout (ELAN spacing, header line positions): completeness of the regexes w.r.t. the grammar")
     rep.not_decided.append("codec behaviour; UTF-8 with BOM JSON")
-    R.rule_unescape_read(rep)
-    R.rule_label_regex(rep)
+    rep.rule("RT-doc", "parseTextgridStr (with both text parsers, the row fetchers and strToIntOrFloat inlined) interpreted on the text the two emitters write for generic textgrids -- numerals and labels are opaque atoms; labels carry adversarial skeletons (doubled quote + line break, quote-only label, quote before blanks and a line break, trailing quote) -- returns the dictionary that was written")
+    R.rule_round_trip(rep, tier)
+    rep.rule("H-siblings", "the long and the short encoding of the same data, with labels as a foreign specification-conformant writer may produce them (surrounding blanks, blank-only, empty, a lone line break), open to equal dictionaries, with and without blank removal")
+    R.rule_sibling_readers(rep)
     R.rule_numeric_regex(rep, tier)
     R.rule_numeric_conversion(rep, tier)
     R.rule_scans(rep)
-    R.rule_block_order(rep)
     R.rule_reader_flow(rep)
-    rule_parser_siblings(rep)
     R.rule_duplicate_names(rep)
-    R.rule_short_order(rep)
     R.rule_json_protocol(rep)
